@@ -266,9 +266,7 @@ def run(ctx):
         small = [r for r in full if len(r["id"]["slots"]) <= 2]
         big = [r for r in full if len(r["id"]["slots"]) > 2]
         rng.shuffle(big)
-        recs = small + big[:900]
-        four = mono_records(ctx, "TypeAlg_Mono_four.cfg", simulate=80, seed=ctx.seed)
-        recs += [r for r in four if len(r["id"]["slots"]) == 4][:300]
+        recs = small + big[:1200]
     mstats["cases"] = len(recs)
     mstats["partial_cases"] = sum(
         1 for r in recs if any(a != ["-"] for a in r["foo"]["mono"]) and any(a == ["-"] for a in r["foo"]["mono"]))
